@@ -122,11 +122,12 @@ def separator_names():
     return pr
 
 
-def trajectory(kind):
-    pr = Problem("trajectory_" + kind)
+def trajectory(kind, p0=None, q0=None):
+    """p0 / q0: initial values of the two constrained fluents (default: the combination used since the first version of the family)"""
+    pr = Problem("trajectory_" + kind + ("" if p0 is None else f"_{int(p0)}{int(q0)}"))
     p, q, g = Fluent("p", BoolType()), Fluent("q", BoolType()), Fluent("g", BoolType())
-    pr.add_fluent(p, default_initial_value=(kind in ("sometime_after", "always", "at_most_once")))
-    pr.add_fluent(q, default_initial_value=(kind in ("sometime_after", "always")))
+    pr.add_fluent(p, default_initial_value=(kind in ("sometime_after", "always", "at_most_once")) if p0 is None else p0)
+    pr.add_fluent(q, default_initial_value=(kind in ("sometime_after", "always")) if q0 is None else q0)
     pr.add_fluent(g, default_initial_value=False)
     for name, f, v, also_g in (("drop_q", q, False, True), ("make_q", q, True, False), ("drop_p", p, False, False),
                                ("make_p", p, True, True)):
@@ -224,6 +225,10 @@ def crafted_cases():
         out.append(("crafted:repeated_conditional_assignment+grounding", (CK.CONDITIONAL_EFFECTS_REMOVING, CK.GROUNDING), repeated_conditional_assignment(same)))
     for k in ("always", "sometime", "at_most_once", "sometime_before", "sometime_after"):
         out.append(("crafted:trajectory_" + k, (CK.TRAJECTORY_CONSTRAINTS_REMOVING,), trajectory(k)))
+    for k in ("sometime", "at_most_once", "sometime_before", "sometime_after"):      # every initial combination of the two constrained fluents
+        for p0 in (False, True):
+            for q0 in (False, True):
+                out.append((f"crafted:trajectory_{k}_init", (CK.TRAJECTORY_CONSTRAINTS_REMOVING,), trajectory(k, p0, q0)))
     for k in ("always+sometime", "sometime+always", "always+at_most_once", "always+sometime_after", "always+sometime+sometime", "always+always+sometime"):
         out.append(("crafted:invariant_with_trajectory_" + k, (CK.STATE_INVARIANTS_REMOVING,), invariant_with_trajectory(k)))
     return out
